@@ -423,11 +423,19 @@ func (w *World) checkMutatingIteration(root *Node) error {
 	}
 	if root.Kind == KArr {
 		pre := append([]*Node(nil), root.Elems...)
-		i := 0
+		// flavour of the mutable enumeration: whole-array callback, range callback, iterator objects
+		from, to := 0, len(pre)
+		flavour := w.rng.Intn(5)
+		if (flavour == 2 || flavour == 4) && len(pre) > 2 {
+			from = w.rng.Intn(len(pre) / 2)
+			to = from + 1 + w.rng.Intn(len(pre)-from)
+		}
+		w.stats.Extra[fmt.Sprintf("mutating-iteration-array-flavour-%d", flavour)]++
+		i := from
 		var inner error
-		err := root.Arr.Iterate(func(v atree.Value) (bool, error) {
-			if i >= len(pre) {
-				inner = viol("iter-mut", "mutable iteration yields more than %d elements", len(pre))
+		visit := func(v atree.Value) (bool, error) {
+			if i >= to {
+				inner = viol("iter-mut", "mutable iteration yields more than %d elements", to-from)
 				return false, nil
 			}
 			cmp := &cmpCtx{storage: w.st, cb: w.cb}
@@ -454,15 +462,43 @@ func (w *World) checkMutatingIteration(root *Node) error {
 			}
 			i++
 			return true, nil
-		})
+		}
+		drive := func(it atree.ArrayIterator, err error) error {
+			if err != nil {
+				return err
+			}
+			for {
+				v, err := it.Next()
+				if err != nil {
+					return err
+				}
+				if v == nil {
+					return nil
+				}
+				if resume, _ := visit(v); !resume {
+					return nil
+				}
+			}
+		}
+		var err error
+		switch flavour {
+		case 0:
+			err = root.Arr.Iterate(visit)
+		case 1, 2:
+			err = root.Arr.IterateRange(uint64(from), uint64(to), visit)
+		case 3:
+			err = drive(root.Arr.Iterator())
+		default:
+			err = drive(root.Arr.RangeIterator(uint64(from), uint64(to)))
+		}
 		if inner != nil {
 			return inner
 		}
 		if err != nil {
-			return viol("iter-mut", "mutable iteration failed: %v", err)
+			return viol("iter-mut", "mutable iteration (flavour %d, range %d..%d) failed: %v", flavour, from, to, err)
 		}
-		if i != len(pre) {
-			return viol("iter-mut", "mutable iteration yielded %d of %d elements", i, len(pre))
+		if i != to {
+			return viol("iter-mut", "mutable iteration (flavour %d) yielded %d of %d elements", flavour, i-from, to-from)
 		}
 		return nil
 	}
@@ -470,44 +506,88 @@ func (w *World) checkMutatingIteration(root *Node) error {
 	if err != nil {
 		return err
 	}
+	// flavour: 0 entries callback, 1 values-only callback, 2 keys-only callback, 3 iterator object with Next,
+	// 4 iterator object with a PRNG mix of Next / NextKey / NextValue
+	flavour := w.rng.Intn(5)
+	w.stats.Extra[fmt.Sprintf("mutating-iteration-map-flavour-%d", flavour)]++
 	i := 0
 	var inner error
-	err = root.Map.Iterate(w.cb.Compare, w.cb.HashInput, func(k, v atree.Value) (bool, error) {
+	// visit receives whichever of key / value the flavour yields (nil when not yielded)
+	visit := func(k, v atree.Value) bool {
 		if i >= len(exp) {
 			inner = viol("iter-mut", "mutable iteration yields more than %d entries", len(exp))
-			return false, nil
+			return false
 		}
-		if !scalarEqual(k, exp[i].k) {
-			inner = viol("iter-mut", "mutable iteration position %d: key %v, expected %s", i, k, exp[i].k)
-			return false, nil
+		if k != nil && !scalarEqual(k, exp[i].k) {
+			inner = viol("iter-mut", "mutable iteration (flavour %d) position %d: key %v, expected %s", flavour, i, k, exp[i].k)
+			return false
+		}
+		if v != nil {
+			cmp := &cmpCtx{storage: w.st, cb: w.cb}
+			if err := cmp.shallowEquals(v, exp[i].v, fmt.Sprintf("mutable iteration (flavour %d) value %d", flavour, i)); err != nil {
+				inner = viol("iter-mut", "%v", err)
+				return false
+			}
 		}
 		switch roll := w.rng.Intn(10); {
 		case roll < 3:
 			nv := w.genScalar(atree.VerifMaxInlineMapValueSize(8))
 			if err := w.OpMapSet(root, exp[i].k, nv); err != nil {
 				inner = err
-				return false, nil
+				return false
 			}
 			w.stats.Extra["overwrites-during-iteration"]++
 		case roll < 7:
-			if cn := exp[i].v.container(); cn != nil {
+			if cn := exp[i].v.container(); cn != nil && v != nil {
 				if err := mutateChild(cn, v); err != nil {
 					inner = err
-					return false, nil
+					return false
 				}
 			}
 		}
 		i++
-		return true, nil
-	})
+		return true
+	}
+	switch flavour {
+	case 0:
+		err = root.Map.Iterate(w.cb.Compare, w.cb.HashInput, func(k, v atree.Value) (bool, error) { return visit(k, v), nil })
+	case 1:
+		err = root.Map.IterateValues(w.cb.Compare, w.cb.HashInput, func(v atree.Value) (bool, error) { return visit(nil, v), nil })
+	case 2:
+		err = root.Map.IterateKeys(w.cb.Compare, w.cb.HashInput, func(k atree.Value) (bool, error) { return visit(k, nil), nil })
+	default:
+		var it atree.MapIterator
+		it, err = root.Map.Iterator(w.cb.Compare, w.cb.HashInput)
+		for err == nil {
+			var k, v atree.Value
+			mode := 0
+			if flavour == 4 {
+				mode = w.rng.Intn(3)
+			}
+			switch mode {
+			case 0:
+				k, v, err = it.Next()
+			case 1:
+				k, err = it.NextKey()
+			default:
+				v, err = it.NextValue()
+			}
+			if err != nil || (k == nil && v == nil) {
+				break
+			}
+			if !visit(k, v) {
+				break
+			}
+		}
+	}
 	if inner != nil {
 		return inner
 	}
 	if err != nil {
-		return viol("iter-mut", "mutable iteration failed: %v", err)
+		return viol("iter-mut", "mutable iteration (flavour %d) failed: %v", flavour, err)
 	}
 	if i != len(exp) {
-		return viol("iter-mut", "mutable iteration yielded %d of %d entries", i, len(exp))
+		return viol("iter-mut", "mutable iteration (flavour %d) yielded %d of %d entries", flavour, i, len(exp))
 	}
 	return nil
 }
@@ -710,6 +790,9 @@ func runC13(c *CaseCtx) *CaseResult {
 			if err := w.checkMapIterators(root); err != nil {
 				return err
 			}
+		}
+		if err := w.checkIteratorObjects(root); err != nil {
+			return err
 		}
 		if err := w.checkMutatingIteration(root); err != nil {
 			return err
